@@ -55,3 +55,35 @@ pub fn new_radixn<T: crate::FftNum>(
 pub fn avx_mul_rem(a: u64, b: u32, divisor: u32) -> Option<([u64; 3], [u64; 4])> {
     crate::avx::verif_mul_rem(a, b, divisor)
 }
+
+pub use crate::array_utils::bitreversed_transpose;
+
+/// `array_utils::factor_transpose::<usize, D>` (crate-private) on explicit `(radix, count)` transpose factors
+pub fn factor_transpose_usize(d: usize, height: usize, input: &[usize], output: &mut [usize], factors: &[(usize, u8)]) {
+    use crate::array_utils::{factor_transpose, TransposeFactor};
+    use crate::common::RadixFactor;
+    let fs: Vec<TransposeFactor> = factors
+        .iter()
+        .map(|&(f, count)| TransposeFactor {
+            factor: match f {
+                2 => RadixFactor::Factor2,
+                3 => RadixFactor::Factor3,
+                4 => RadixFactor::Factor4,
+                5 => RadixFactor::Factor5,
+                6 => RadixFactor::Factor6,
+                7 => RadixFactor::Factor7,
+                _ => panic!("bad radix factor"),
+            },
+            count,
+        })
+        .collect();
+    match d {
+        2 => factor_transpose::<usize, 2>(height, input, output, &fs),
+        3 => factor_transpose::<usize, 3>(height, input, output, &fs),
+        4 => factor_transpose::<usize, 4>(height, input, output, &fs),
+        5 => factor_transpose::<usize, 5>(height, input, output, &fs),
+        6 => factor_transpose::<usize, 6>(height, input, output, &fs),
+        7 => factor_transpose::<usize, 7>(height, input, output, &fs),
+        _ => panic!("bad unroll factor"),
+    }
+}
